@@ -994,8 +994,8 @@ fn parse_number(
         return Err("Could not parse number".to_string());
     };
     match chars.parse::<f64>() {
-        Err(_) => Err("Failed to parse to double".to_string()),
-        Ok(v) => Ok((
+        // a number too large for a double is not a number (it would be stored as infinity)
+        Ok(v) if v.is_finite() => Ok((
             sign * v,
             NumberOptions {
                 has_commas: !group_separator_index.is_empty(),
@@ -1003,5 +1003,6 @@ fn parse_number(
                 decimal_digits,
             },
         )),
+        _ => Err("Failed to parse to double".to_string()),
     }
 }
